@@ -9,6 +9,7 @@ import (
 	"os"
 	"path/filepath"
 	"strings"
+	"time"
 
 	corestore "cosmossdk.io/core/store"
 	"github.com/cosmos/iavl"
@@ -30,12 +31,19 @@ type Config struct {
 	Backend string
 	// NoLoad: the first handle on the (empty) store is used without an initial Load()
 	NoLoad bool
+	// Async: background pruning (AsyncPruningOption). DeleteVersionsTo only files a request; the
+	// executor waits until the pruning goroutine has taken the versions out of the available range
+	// (the deletions themselves stay in the pending batch until the next commit: Env.AsyncPending).
+	Async bool
 }
 
 func (c Config) String() string {
 	s := fmt.Sprintf("cache=%d fast=%v flush=%d sync=%v initial=%d backend=%s", c.Cache, c.Fast, c.Flush, c.Sync, c.Initial, c.Backend)
 	if c.NoLoad {
 		s += " no-initial-Load"
+	}
+	if c.Async {
+		s += " async-pruning"
 	}
 	return s
 }
@@ -82,6 +90,9 @@ type Env struct {
 	LastSaveHash []byte
 	// Hashes returned by iavl at commit, per version.
 	CommitHash map[int64][]byte
+	// AsyncPending: background pruning has processed a request whose deletions have not been
+	// flushed by a commit yet (a fresh handle on the same store still sees the old range).
+	AsyncPending bool
 }
 
 // NewBase creates the underlying store for a backend name.
@@ -163,6 +174,9 @@ func Options(cfg Config) []iavl.Option {
 	if cfg.Initial > 0 {
 		opts = append(opts, iavl.InitialVersionOption(uint64(cfg.Initial)))
 	}
+	if cfg.Async {
+		opts = append(opts, iavl.AsyncPruningOption(true))
+	}
 	return opts
 }
 
@@ -170,11 +184,16 @@ func (e *Env) open(cfg Config) *iavl.MutableTree {
 	if cfg.Fast {
 		e.FastEver = true
 	}
-	return iavl.NewMutableTree(e.W, cfg.Cache, !cfg.Fast, iavl.NewNopLogger(), Options(cfg)...)
+	t := iavl.NewMutableTree(e.W, cfg.Cache, !cfg.Fast, iavl.NewNopLogger(), Options(cfg)...)
+	if cfg.Async {
+		e.closers = append(e.closers, func() { _ = t.Close() }) // stops the pruning goroutine
+	}
+	return t
 }
 
 // OpenHandle opens an additional handle on the same store (fresh caches).
 func (e *Env) OpenHandle(cfg Config) *iavl.MutableTree {
+	cfg.Async = false // observation handles do not prune (and must not leave a goroutine behind)
 	return iavl.NewMutableTree(e.W, cfg.Cache, !cfg.Fast, iavl.NewNopLogger(), Options(cfg)...)
 }
 
@@ -355,6 +374,15 @@ func (e *Env) Apply(op Op, checkOps bool) Outcome {
 		out.Expect.Noop = true
 		return out
 	}
+	if e.Cfg.Async && (op.Kind == "reopen" || (op.Kind == "delto" && (e.M.Latest == 0 || op.N >= e.M.Latest))) {
+		// Background pruning: an invalid request is not answered by DeleteVersionsTo (it returns nil
+		// and the pruning goroutine logs and retries), and a handle that is abandoned takes its
+		// unflushed deletions with it. Neither is something a property speaks about.
+		e.logf("%d:%s[skipped under background pruning]", e.Step, op)
+		out.Err = ErrOutsideDomain
+		out.Expect.Noop = true
+		return out
+	}
 	e.logf("%d:%s", e.Step, op)
 	o := &Oracle{M: e.M, R: e.R}
 	// run iavl first (the oracle mutates M/R, and messages want the pre-state)
@@ -365,7 +393,13 @@ func (e *Env) Apply(op Op, checkOps bool) Outcome {
 	case "rm":
 		out.Val, out.Removed, out.Err = e.T.Remove(op.K)
 	case "save":
+		if e.Cfg.Async {
+			e.T.SetCommitting()
+		}
 		out.Hash, out.Version, out.Err = e.T.SaveVersion()
+		if e.Cfg.Async {
+			e.T.UnsetCommitting()
+		}
 	case "rollback":
 		e.T.Rollback()
 	case "reopen":
@@ -385,6 +419,22 @@ func (e *Env) Apply(op Op, checkOps bool) Outcome {
 		out.Version, out.Err = e.T.LoadVersion(op.N)
 	case "delto":
 		out.Err = e.T.DeleteVersionsTo(op.N)
+		if e.Cfg.Async && out.Err == nil {
+			// bounded progress instead of "eventually": the pruning goroutine wakes up every 100 ms
+			drained := false
+			for i := 0; i < 20000 && !drained; i++ {
+				if drained = !e.T.VersionExists(op.N); !drained {
+					time.Sleep(time.Millisecond)
+				}
+			}
+			if !drained {
+				e.C.Res.Inconcl = fmt.Sprintf("background pruning did not take version %d out of the range within the bound", op.N)
+				e.Dead = true
+				return out
+			}
+			e.AsyncPending = true
+			e.C.Obs("async_prune_requests_drained", 1)
+		}
 	case "lfo":
 		out.Err = e.T.LoadVersionForOverwriting(op.N)
 	case "delfrom":
@@ -401,6 +451,9 @@ func (e *Env) Apply(op Op, checkOps bool) Outcome {
 	out.Expect = x
 	if x.Noop {
 		return out
+	}
+	if out.Err == nil && ((op.Kind == "save" && !x.Existing) || op.Kind == "lfo" || op.Kind == "delfrom") {
+		e.AsyncPending = false // these end with a batch write
 	}
 	if x.Fail {
 		if out.Err == nil {
